@@ -437,6 +437,12 @@ static unsigned save_to_argbuf(void *argbuf, struct list_head *args_spec,
 			unsigned short len;
 			char *str = ctx->val.p;
 
+			/* even an empty string takes 4 bytes: keep out of the next frame's buffer */
+			if (total_size + 4 > max_size) {
+				total_size += 4;
+				break;
+			}
+
 			if (spec->fmt == ARG_FMT_STD_STRING) {
 				/*
 				 * This is libstdc++ implementation dependent.
@@ -471,16 +477,23 @@ static unsigned save_to_argbuf(void *argbuf, struct list_head *args_spec,
 				 */
 				len = 0;
 				for (i = 0; i < max_size - total_size; i++) {
-					dst[i] = str[i];
+					char c = str[i];
 
 					/* truncate long string */
-					if (i == ARG_STR_MAX && dst[i]) {
+					if (i == ARG_STR_MAX && c) {
 						dst[i - 3] = '.';
 						dst[i - 2] = '.';
 						dst[i - 1] = '.';
-						dst[i] = '\0';
+						c = '\0';
 					}
-					if (!dst[i])
+					/*
+					 * The length is saved in front: what has no room
+					 * (at most the NUL of a string that just fits, or
+					 * the tail of one that will be refused) is not stored.
+					 */
+					if (i + 2 < max_size - total_size)
+						dst[i] = c;
+					if (!c)
 						break;
 					len++;
 				}
@@ -491,6 +504,10 @@ static unsigned save_to_argbuf(void *argbuf, struct list_head *args_spec,
 				const char null_str[4] = { 'N', 'U', 'L', 'L' };
 
 				len = sizeof(null_str);
+				if (total_size + ALIGN(len + 2, 4) > max_size) {
+					total_size += ALIGN(len + 2, 4);
+					break;
+				}
 				mcount_memcpy1(ptr, &len, sizeof(len));
 				mcount_memcpy1(ptr + 2, null_str, len);
 			}
@@ -505,6 +522,11 @@ static unsigned save_to_argbuf(void *argbuf, struct list_head *args_spec,
 		}
 		else {
 			size = ALIGN(spec->size, 4);
+			if (total_size + size > max_size) {
+				/* just to make it fail (before the copy, not after) */
+				total_size += size;
+				break;
+			}
 			mcount_memcpy4(ptr, ctx->val.v, size);
 		}
 		ptr += size;
